@@ -1260,13 +1260,8 @@ func objAndFlagArgs(call ssa.CallInstruction) (obj, flag ssa.Value) {
 // reports the missing dispatch header.
 func (c *Ctx) dispatchFunction(ia *interpAnchors) *ssa.Function {
 	counts := func(f *ssa.Function) bool {
-		found := false
-		eachInstr(f, func(ins ssa.Instruction) {
-			if st, ok := ins.(*ssa.Store); ok && isFieldAddr(st.Addr, ia.T, "NumOps") {
-				found = true
-			}
-		})
-		return found
+		// the store to the counter, or the call of a helper that holds it (opCounter, ext_x6.go)
+		return len(c.opCounter(ia).marksIn(f)) > 0
 	}
 	fn := ia.executeOne
 	for depth := 0; depth < 3; depth++ {
